@@ -6,6 +6,7 @@ import Driver.C05
 import Driver.C10
 import Driver.C11
 import Driver.C13
+import Driver.C14
 import Driver.C15
 import Driver.C07
 import Driver.C09
@@ -26,6 +27,7 @@ structure DState where
   alloc : Amqp.Alloc.A := { max := 0 }
   rpc : Amqp.Rpc.S := {}
   errs : Amqp.Errors.C := {}
+  cons : Amqp.Consumers.S := {}
 
 def handlers : List Handler := [
   Driver.C04.handle,
@@ -55,6 +57,9 @@ def step (st : DState) (line : String) : DState × String :=
   | none =>
   match Driver.C07.stepCmd st.errs args with
   | some (e, o) => ({ st with errs := e }, o)
+  | none =>
+  match Driver.C14.stepCmd st.cons args with
+  | some (c, o) => ({ st with cons := c }, o)
   | none =>
     match handlers.findSome? (fun h => h args) with
     | some o => (st, o)
